@@ -27,6 +27,7 @@ Definition of_req (r : req) : sx :=
   | RCreate b => L [I 0; of_body b]
   | RRerun i => L [I 1; of_opt I i]
   | RStatus i => L [I 2; of_opt I i]
+  | RWrite => L [I 3]
   end.
 
 Definition to_spec (x : sx) : spec :=
